@@ -85,6 +85,10 @@ var curatedFENs = []string{
 	"2kr3r/pppq1ppp/2npbn2/2b1p3/2B1P3/2NPBN2/PPPQ1PPP/R3K2R w KQ - 5 9",
 	"6k1/8/2p5/3pP3/4K3/8/2n5/3r1r2 w - d6 0 2", // in check by the pawn that just jumped: e.p. is the only legal move
 	"5bk1/8/p7/Pp6/K7/7r/8/8 w - b6 0 2",
+	"4k2r/6K1/8/8/8/8/1r6/8 w k - 0 1", // a king may take a home rook that still has its right
+	"8/8/8/8/8/8/6k1/4K2R b K - 0 1",
+	"r3k3/1K6/8/8/8/8/8/8 w q - 0 1",
+	"8/8/8/8/8/8/1k6/R3K3 b Q - 0 1",
 	// corner rooks with castling rights under attack by pawns about to promote, knights, bishops, rooks
 	"r3k2r/1P4P1/8/8/8/8/1p4p1/R3K2R w KQkq - 0 1",
 	"r3k2r/1P4P1/8/8/8/8/1p4p1/R3K2R b KQkq - 0 1",
@@ -244,7 +248,11 @@ func genStates(c *caseCtx, n int) []state {
 	if n >= 300 {
 		// checks by a pawn that has just made its double step (en passant among the evasions, often the
 		// only one) and positions in which every legal move is a concession
-		for _, f := range append(epEvasions(c, 30), cramped(c, 20)...) {
+		sp := append(epEvasions(c, 30), cramped(c, 20)...)
+		sp = append(sp, kingNextToHomeRook(c, 20)...)
+		sp = append(sp, pinLines(c, 40)...)
+		sp = append(sp, queenStars(c, 10)...)
+		for _, f := range sp {
 			ret = append(ret, mustDecode(f))
 		}
 	}
@@ -383,6 +391,201 @@ func epEvasions(c *caseCtx, n int) []string {
 		}
 		// the pawn must be the only checker, or at least the position must be reachable-looking: keep all
 		ret = append(ret, fen.Encode(pos, side, 0, 2))
+	}
+	return ret
+}
+
+// kingNextToHomeRook: the enemy king stands next to a rook on its home corner whose side still has the
+// castling right with it, and may capture it (side to move: the capturing king's).
+func kingNextToHomeRook(c *caseCtx, n int) []string {
+	var ret []string
+	type corner struct {
+		rook, king board.Square
+		col        board.Color
+		right      board.Castling
+	}
+	corners := []corner{
+		{board.H1, board.E1, board.White, board.WhiteKingSideCastle},
+		{board.A1, board.E1, board.White, board.WhiteQueenSideCastle},
+		{board.H8, board.E8, board.Black, board.BlackKingSideCastle},
+		{board.A8, board.E8, board.Black, board.BlackQueenSideCastle},
+	}
+	for tries := 0; tries < 100*n && len(ret) < n; tries++ {
+		k := corners[c.r.Intn(len(corners))]
+		var used [64]bool
+		var pls []board.Placement
+		put := func(col board.Color, pc board.Piece, sq board.Square) bool {
+			if sq >= 64 || used[sq] || (pc == board.Pawn && (sq.Rank() == board.Rank1 || sq.Rank() == board.Rank8)) {
+				return false
+			}
+			used[sq] = true
+			pls = append(pls, board.Placement{Square: sq, Color: col, Piece: pc})
+			return true
+		}
+		put(k.col, board.Rook, k.rook)
+		put(k.col, board.King, k.king)
+		// the capturing king diagonally or straight next to the rook, not adjacent to the other king
+		var adj []board.Square
+		for _, df := range []int{-1, 0, 1} {
+			for _, dr := range []int{-1, 0, 1} {
+				f, r := int(k.rook.File())+df, int(k.rook.Rank())+dr
+				if (df != 0 || dr != 0) && f >= 0 && f < 8 && r >= 0 && r < 8 {
+					adj = append(adj, board.NewSquare(board.File(f), board.Rank(r)))
+				}
+			}
+		}
+		if !put(k.col.Opponent(), board.King, adj[c.r.Intn(len(adj))]) {
+			continue
+		}
+		extras := []board.Piece{board.Pawn, board.Pawn, board.Rook, board.Knight, board.Bishop}
+		for j := 0; j < c.r.Intn(4); j++ {
+			put(board.Color(c.r.Intn(2)), extras[c.r.Intn(len(extras))], board.Square(c.r.Intn(64)))
+		}
+		pos, err := board.NewPosition(pls, k.right, 0)
+		side := k.col.Opponent()
+		if err != nil || pos == nil || pos.IsChecked(k.col) {
+			continue
+		}
+		ret = append(ret, fen.Encode(pos, side, 0, 1))
+	}
+	return ret
+}
+
+// queenStars: a queen on a central square with long open rays ending on enemy men (weighted mobility
+// counts far above what ordinary play reaches), for either colour.
+func queenStars(c *caseCtx, n int) []string {
+	var ret []string
+	dirs := [][2]int{{1, 0}, {-1, 0}, {0, 1}, {0, -1}, {1, 1}, {1, -1}, {-1, 1}, {-1, -1}}
+	for tries := 0; tries < 100*n && len(ret) < n; tries++ {
+		var used [64]bool
+		var pls []board.Placement
+		put := func(col board.Color, pc board.Piece, sq board.Square) bool {
+			if sq >= 64 || used[sq] || (pc == board.Pawn && (sq.Rank() == board.Rank1 || sq.Rank() == board.Rank8)) {
+				return false
+			}
+			used[sq] = true
+			pls = append(pls, board.Placement{Square: sq, Color: col, Piece: pc})
+			return true
+		}
+		col := board.Color(c.r.Intn(2))
+		qf, qr := 2+c.r.Intn(4), 2+c.r.Intn(4)
+		put(col, board.Queen, board.NewSquare(board.File(qf), board.Rank(qr)))
+		men := []board.Piece{board.Pawn, board.Rook, board.Knight, board.Bishop, board.Rook, board.Pawn}
+		var ends []board.Square
+		for _, d := range dirs {
+			f, r := qf, qr
+			for f+d[0] >= 0 && f+d[0] < 8 && r+d[1] >= 0 && r+d[1] < 8 {
+				f, r = f+d[0], r+d[1]
+			}
+			ends = append(ends, board.NewSquare(board.File(f), board.Rank(r)))
+		}
+		c.r.Shuffle(len(ends), func(i, j int) { ends[i], ends[j] = ends[j], ends[i] })
+		k := 4 + c.r.Intn(5)
+		for _, sq := range ends[:k] {
+			put(col.Opponent(), men[c.r.Intn(len(men))], sq)
+		}
+		// kings off the rays where possible
+		placed := 0
+		for t := 0; t < 200 && placed < 2; t++ {
+			sq := board.Square(c.r.Intn(64))
+			onRay := int(sq.File()) == qf || int(sq.Rank()) == qr || int(sq.File())-qf == int(sq.Rank())-qr || int(sq.File())-qf == qr-int(sq.Rank())
+			if onRay {
+				continue
+			}
+			who := col
+			if placed == 1 {
+				who = col.Opponent()
+			}
+			if put(who, board.King, sq) {
+				placed++
+			}
+		}
+		if placed < 2 {
+			continue
+		}
+		pos, err := board.NewPosition(pls, 0, 0)
+		if err != nil || pos == nil {
+			continue
+		}
+		side := board.Color(c.r.Intn(2))
+		if pos.IsChecked(side.Opponent()) {
+			side = side.Opponent()
+			if pos.IsChecked(side.Opponent()) {
+				continue
+			}
+		}
+		ret = append(ret, fen.Encode(pos, side, 0, 1))
+	}
+	return ret
+}
+
+// pinLines: a target (king or queen), an own piece in front of it (any kind, a second queen included)
+// and an enemy slider of the matching kind behind that, all on one line with nothing between; plus
+// random extras elsewhere.
+func pinLines(c *caseCtx, n int) []string {
+	var ret []string
+	dirs := [][2]int{{1, 0}, {-1, 0}, {0, 1}, {0, -1}, {1, 1}, {1, -1}, {-1, 1}, {-1, -1}}
+	for tries := 0; tries < 100*n && len(ret) < n; tries++ {
+		var used [64]bool
+		var pls []board.Placement
+		put := func(col board.Color, pc board.Piece, sq board.Square) bool {
+			if sq >= 64 || used[sq] || (pc == board.Pawn && (sq.Rank() == board.Rank1 || sq.Rank() == board.Rank8)) {
+				return false
+			}
+			used[sq] = true
+			pls = append(pls, board.Placement{Square: sq, Color: col, Piece: pc})
+			return true
+		}
+		col := board.Color(c.r.Intn(2))
+		d := dirs[c.r.Intn(len(dirs))]
+		f0, r0 := c.r.Intn(8), c.r.Intn(8)
+		var line []board.Square
+		for f, r := f0, r0; f >= 0 && f < 8 && r >= 0 && r < 8; f, r = f+d[0], r+d[1] {
+			line = append(line, board.NewSquare(board.File(f), board.Rank(r)))
+		}
+		if len(line) < 3 {
+			continue
+		}
+		i1 := 1 + c.r.Intn(len(line)-2)
+		i2 := i1 + 1 + c.r.Intn(len(line)-i1-1)
+		target := board.Queen
+		if c.r.Intn(2) == 0 {
+			target = board.King
+		}
+		shields := []board.Piece{board.Queen, board.Queen, board.Rook, board.Bishop, board.Knight, board.Pawn}
+		slider := board.Rook
+		if d[0] != 0 && d[1] != 0 {
+			slider = board.Bishop
+		}
+		if c.r.Intn(3) == 0 {
+			slider = board.Queen
+		}
+		put(col, target, line[0])
+		if !put(col, shields[c.r.Intn(len(shields))], line[i1]) || !put(col.Opponent(), slider, line[i2]) {
+			continue
+		}
+		if target != board.King {
+			for !put(col, board.King, board.Square(c.r.Intn(64))) {
+			}
+		}
+		for !put(col.Opponent(), board.King, board.Square(c.r.Intn(64))) {
+		}
+		extras := []board.Piece{board.Pawn, board.Queen, board.Rook, board.Knight, board.Bishop}
+		for j := 0; j < c.r.Intn(5); j++ {
+			put(board.Color(c.r.Intn(2)), extras[c.r.Intn(len(extras))], board.Square(c.r.Intn(64)))
+		}
+		pos, err := board.NewPosition(pls, 0, 0)
+		if err != nil || pos == nil {
+			continue
+		}
+		side := col
+		if pos.IsChecked(side.Opponent()) {
+			side = side.Opponent()
+			if pos.IsChecked(side.Opponent()) {
+				continue
+			}
+		}
+		ret = append(ret, fen.Encode(pos, side, 0, 1))
 	}
 	return ret
 }
